@@ -30,6 +30,23 @@ pending_call_t;
 static pending_call_t *call_list[CALLOUT_CYCLE_SIZE];
 static pending_call_t *call_list_free;
 static time_t call_out_time = 0;
+/* The wheel is laid out in absolute seconds, so it needs a clock that never runs backwards.
+ * When the system clock is set back, current_time falls behind call_out_time: nothing would
+ * be served until the clock had caught up again (days, for a restored snapshot), and delays
+ * computed against it come out negative.  call_out_now() is current_time plus what such
+ * steps took away: it stands still for the step and runs on from there. */
+static time_t call_out_clock_offset = 0;
+
+static time_t call_out_now (void) {
+  time_t now = current_time + call_out_clock_offset;
+
+  if (call_out_time && now < call_out_time)
+    {
+      call_out_clock_offset += call_out_time - now;
+      now = call_out_time;
+    }
+  return now;
+}
 static int num_call;
 static int unique = 0;
 
@@ -83,7 +100,7 @@ int new_call_out (object_t * ob, svalue_t * fun, time_t delay, int num_args, sva
     delay = 1;
   /* Needs to be initialized here in case of very early call_outs */
   if (!call_out_time)
-    call_out_time = current_time;
+    call_out_time = call_out_now ();
 
   if (!call_list_free)
     {
@@ -126,8 +143,8 @@ int new_call_out (object_t * ob, svalue_t * fun, time_t delay, int num_args, sva
     cop->vs = 0;
 
   /* Find out which slot this one fits in */
-  tm = (delay + current_time) & (CALLOUT_CYCLE_SIZE - 1);
-  delay = (1 + (delay + current_time - call_out_time - 1) / CALLOUT_CYCLE_SIZE);
+  tm = (delay + call_out_now ()) & (CALLOUT_CYCLE_SIZE - 1);
+  delay = (1 + (delay + call_out_now () - call_out_time - 1) / CALLOUT_CYCLE_SIZE);
 
   for (copp = &call_list[tm]; *copp; copp = &(*copp)->next)
     {
@@ -175,10 +192,10 @@ call_out ()
       cop = 0;
     }
   if (!call_out_time)
-    call_out_time = current_time;
+    call_out_time = call_out_now ();
   save_context (&econ);
 
-  while (call_out_time < current_time)
+  while (call_out_time < call_out_now ())
     {
       /* The slot of this second is decremented below, so from here on it counts as
          served: new_call_out() and time_left() called from inside the callbacks
@@ -274,12 +291,12 @@ static time_t time_left (int slot, time_t delay) {
   if (slot > current_slot)
     {
       return (delay - 1) * CALLOUT_CYCLE_SIZE + (slot - current_slot) +
-        call_out_time - current_time;
+        call_out_time - call_out_now ();
     }
   else
     {
       return delay * CALLOUT_CYCLE_SIZE + (slot - current_slot) +
-        call_out_time - current_time;
+        call_out_time - call_out_now ();
     }
 }
 
@@ -452,13 +469,13 @@ array_t* get_all_call_outs () {
             {
               vv->item[2].u.number =
                 (delay - 1) * CALLOUT_CYCLE_SIZE + (j - tm) + call_out_time -
-                current_time;
+                call_out_now ();
             }
           else
             {
               vv->item[2].u.number =
                 delay * CALLOUT_CYCLE_SIZE + (j - tm) + call_out_time -
-                current_time;
+                call_out_now ();
             }
 
           v->item[i].type = T_ARRAY;
